@@ -184,27 +184,57 @@ def seeds_and_kwargs(rep, a):
                 found.append(("C15", "C15_KwargsAccepted", f"{name}(solver={solver}, solver_kwargs={kwargs}) raised {type(e).__name__}: {str(e)[:150]}",
                               dict(kind="solver_kwargs", cls=name, solver=solver, kwargs=kwargs)))
     # dask back-end: 'auto' and 'randomized' run dask's compressed SVD, nothing else; results equal the numpy fit (10x gap)
-    ref = xe.single.EOF(n_modes=3, solver="full").fit(Xr, "time")
-    for solver in ("auto", "randomized"):
-        for chunks in ({"time": 10}, {"time": -1}, {"time": 20, "x": 6}):
-            _verif.reset()
-            md = xe.single.EOF(n_modes=3, solver=solver, random_state=4).fit(Xr.chunk(chunks), "time")
-            seen = {e["branch"] for e in _verif.events() if e["event"] == "svd_branch"}
-            nfacts += 2
-            if seen != {"dask"}:
-                found.append(("C15", "C15_AutoIsOneOfTwo", f"dask input, solver={solver}: SVD routine(s) {sorted(seen)} ran; the randomised routine for dask data is the compressed SVD",
-                              dict(kind="dask_branch", solver=solver)))
-            a1, a2 = ref.explained_variance().values, md.explained_variance().values
-            if not np.allclose(a1, a2, rtol=1e-6):
-                found.append(("C15", "C15_SolversAgree", f"dask input, solver={solver}, chunks={chunks}: explained variances {a2.tolist()} differ from the exact solver {a1.tolist()}",
-                              dict(kind="dask_values", solver=solver)))
+    # a matrix wide enough that the compressed SVD really is approximate (range finder smaller than the matrix,
+    # slowly decaying tail below a 40x gap): there the power iterations carry the accuracy
+    nb_, pb_ = 120, 60
+    Ub, _ = np.linalg.qr(rng.normal(size=(nb_, pb_)))
+    Vb, _ = np.linalg.qr(rng.normal(size=(pb_, pb_)))
+    sb = np.concatenate([[50., 30., 20.], np.linspace(0.5, 0.05, pb_ - 3)])
+    Zb = (Ub * sb) @ Vb.T
+    Zb = Zb - Zb.mean(0)
+    Xb = xr.DataArray(Zb, dims=("time", "x"), coords=dict(time=np.arange(nb_), x=np.arange(pb_)))
+    for Xc, tagc in ((Xr, "12 features"), (Xb, "60 features, tail below a 40x gap")):
+        ref = xe.single.EOF(n_modes=3, solver="full").fit(Xc, "time")
+        for solver in ("auto", "randomized"):
+            for chunks in ({"time": 10}, {"time": -1}, {"time": 20, "x": 6}):
+                _verif.reset()
+                md = xe.single.EOF(n_modes=3, solver=solver, random_state=4).fit(Xc.chunk(chunks), "time")
+                seen = {e["branch"] for e in _verif.events() if e["event"] == "svd_branch"}
+                nfacts += 2
+                if seen != {"dask"}:
+                    found.append(("C15", "C15_AutoIsOneOfTwo", f"dask input, solver={solver}: SVD routine(s) {sorted(seen)} ran; the randomised routine for dask data is the compressed SVD",
+                                  dict(kind="dask_branch", solver=solver)))
+                a1, a2 = ref.explained_variance().values, md.explained_variance().values
+                if not np.allclose(a1, a2, rtol=1e-6):
+                    found.append(("C15", "C15_SolversAgree", f"dask input, solver={solver}, chunks={chunks} ({tagc}): explained variances {a2.tolist()} differ from the exact solver {a1.tolist()}",
+                                  dict(kind="dask_values", solver=solver)))
+                # the deferred route (compute=False, later compute()) is the same randomised method: same accuracy
+                # (values and leading subspace), same routine
+                _verif.reset()
+                ml = xe.single.EOF(n_modes=3, solver=solver, random_state=4, compute=False).fit(Xc.chunk(chunks), "time")
+                ml.compute()
+                seen = {e["branch"] for e in _verif.events() if e["event"] == "svd_branch"}
+                nfacts += 3
+                if seen != {"dask"}:
+                    found.append(("C15", "C15_AutoIsOneOfTwo", f"dask input, solver={solver}, compute=False: SVD routine(s) {sorted(seen)} ran",
+                                  dict(kind="dask_branch_deferred", solver=solver)))
+                a3 = ml.explained_variance().values
+                if not np.allclose(a1, a3, rtol=1e-6):
+                    found.append(("C15", "C15_SolversAgree", f"dask input, solver={solver}, chunks={chunks} ({tagc}), compute=False then compute(): explained variances {a3.tolist()} differ from the exact solver {a1.tolist()}",
+                                  dict(kind="dask_values_deferred", solver=solver)))
+                V1 = ref.components().transpose("x", "mode").values
+                V3 = ml.components().transpose("x", "mode").values
+                ov = np.abs(V1.T @ V3)
+                if np.abs(ov - np.eye(3)).max() > 1e-5:
+                    found.append(("C15", "C15_SolversAgree", f"dask input, solver={solver}, chunks={chunks} ({tagc}), compute=False then compute(): components differ from the exact solver's (max |overlap - I| = {np.abs(ov - np.eye(3)).max():.2e})",
+                                  dict(kind="dask_subspace_deferred", solver=solver)))
     rep.d_facts += nfacts
     rep.traces += nfacts
     return found
 
 
 def main():
-    a, rep, replay = parse(PROP)
+    a, rep, replay = parse(PROP, aged=True)
     rep.assumptions = [
         "fractions are enumerated only off the cumulative boundaries (floating point cannot flip the predicted count)",
         "exact-vs-randomised agreement is asserted only when a 10x singular-value gap follows the last requested mode",
